@@ -44,10 +44,19 @@ def main():
     confirmed = all(meta.get(k) for k in ("patch_applies", "existing_tests_pass_with_patch", "demo_fails_with_patch", "demo_passes_without_patch"))
     meta["confirmed"] = confirmed
     meta["checks"] = {}
+    scratch = "--scratch" in sys.argv  # run the checks against a scratch worktree instead of /repo (when /repo is in use)
     if confirmed:
-        rc, out = sh("git -C /repo status --porcelain")
-        assert out.strip() == "", "/repo not clean: " + out
-        rc, out = sh("git -C /repo apply %s" % patch)
+        if scratch:
+            repo = "/tmp/seedrepo-%d" % os.getpid()
+            sh("git -C /repo worktree add -q --detach %s HEAD" % repo)
+        else:
+            repo = "/repo"
+            rc, out = sh("git -C /repo status --porcelain")
+            assert out.strip() == "", "/repo not clean: " + out
+        rc, out = sh("git -C %s apply %s" % (repo, patch))
+        ENV["VERIF_REPO"] = repo
+        ENV["VERIF_EVIDENCE_DIR"] = "/verif/work/seed_evidence"
+        ENV["VERIF_REPLAY_DIR"] = "/verif/work/seed_replays"
         try:
             for p in props:
                 t0 = time.time()
@@ -56,11 +65,15 @@ def main():
                 meta["checks"][p] = {"exit": rc, "detected": rc == 1 and bool(viol), "violation_lines": [v[:300] for v in viol[:5]], "wall_s": round(time.time() - t0, 1),
                                      "other": [l[:300] for l in out.splitlines() if l.startswith(("ENGINE-MISMATCH", "PROBLEM"))][:5]}
         finally:
-            sh("git -C /repo checkout -- .")
+            if scratch:
+                sh("git -C /repo worktree remove --force %s" % repo)
+            else:
+                sh("git -C /repo checkout -- .")
+        meta["checked_against"] = "scratch worktree of /repo HEAD with the patch applied (VERIF_REPO)" if scratch else "/repo with the patch applied (git -C /repo apply), undone afterwards"
     dst = os.path.join("/verif/seeded", name)
     os.makedirs(dst, exist_ok=True)
     for f in ("patch.diff", "demo_test.go", "README.md"):
-        if os.path.exists(os.path.join(sdir, f)):
+        if os.path.exists(os.path.join(sdir, f)) and os.path.abspath(sdir) != os.path.abspath(dst):
             shutil.copy(os.path.join(sdir, f), os.path.join(dst, f))
     if os.path.exists(os.path.join(sdir, "README.md")):
         meta["needs_to_manifest"] = open(os.path.join(sdir, "README.md")).read()[:1500]
